@@ -10,7 +10,7 @@ TB = ("clang 14 front end + constant evaluator; bin/fsx serialisation of the ins
 
 CLAIMED = {
  "C08": dict(technique="custom clang-LibTooling AST extraction + guard-order (short-circuit aware must-facts) and must-precede dataflow rules; constant evaluation of table shapes",
-             text="Static decision of three necessary clauses of memory safety named by the property's anchors (filter call guarded by the bounds test, donors-table width, resume-before-resize) on every instantiated grid type, all paths, of 'no read after move', and -- shared with other properties' bounded interpretations -- that the spanning-tree resolver interpreted as a whole on small node graphs (with and without a masked node) and the mesh / basin-graph code index no table out of bounds, and that no setter overload leaves a stride describing the previous array. The bulk of index arithmetic over runtime data is not decided.",
+             text="Static decision of three necessary clauses of memory safety named by the property's anchors (filter call guarded by the bounds test, donors-table width, resume-before-resize) on every instantiated grid type, all paths, of 'no read after move', of 'no built-in shift by an unbounded amount', and -- shared with other properties' bounded interpretations -- that the spanning-tree resolver interpreted as a whole on small node graphs (with and without a masked node) and the mesh / basin-graph code index no table out of bounds, and that no setter overload leaves a stride describing the previous array. The bulk of index arithmetic over runtime data is not decided.",
              ref="§5 C08"),
  "C11": dict(technique="custom AST rules on resolved std::atomic / condition_variable / lock calls: memory-order constants, predicate-wait and state-change-under-mutex discipline, must-precede ordering of the handshake",
              text="Static decision, on all paths of thread_pool's functions, of the synchronisation discipline (release/acquire hand-off, no lost wake-up by construction, handshake ordering, run_tasks() publishes the task set installed by the preceding set_tasks()), and, within a bound, of the block partition arithmetic and of run_blocks' dispatch (each index exactly once, twice on the same pool). Exactly-once execution under every schedule is not decided as such.",
